@@ -3,8 +3,12 @@ Tie: H.  Theorems of Props/C19 over Model/ISeq (cells with cached len; slices ov
 arrays with an in-place-writing `append`) + differential correspondence: register scripts are run on
 the real list.Trait / slice.Trait / seq.Foldable (internal/seq staged from vlib.REPO at run time) and
 on the Lean interpreters, and (direct oracle) on plain Python lists; the harness re-reads every live
-register and every slice handed to New after every operation (persistence)."""
-import itertools, json, os, shutil
+register and every slice handed to New after every operation (persistence).
+Other element types: the harness interpreter is generic in the element type (codec inj/prj); every script is
+re-run in the same process at E = string, E = a non-empty interface type and E = any (0 is the NIL interface
+value, Fold through the monoid transported by the codec); the projected observations must be those of the int
+run (field `ty[...]` of the harness line; the Lean model is compared on the int part only)."""
+import itertools, json, os, re, shutil
 import vlib
 
 P = 1000003
@@ -65,10 +69,13 @@ def py_run(script):
 
 
 # ------------------------------------------------------------------ generators
-def enum_scripts(maxlen):
+NEWS = ["N:", "N:1", "N:2,3"]
+NEWS0 = ["N:", "N:0", "N:5,0,3"]  # the zero alphabet: 0 is the nil interface value at the interface element types
+
+
+def enum_scripts(maxlen, news=NEWS, cons=4):
     """Every script of length <= maxlen over a small alphabet with valid register references
     (Head/Tail of an empty register included: the script then ends in `panic`)."""
-    news = ["N:", "N:1", "N:2,3"]
     out = []
 
     def rec(prefix, nregs, stopped):
@@ -79,7 +86,7 @@ def enum_scripts(maxlen):
         for n in news:
             rec(prefix + [n], nregs + 1, False)
         for r in range(nregs):
-            rec(prefix + ["C:4:%d" % r], nregs + 1, False)
+            rec(prefix + ["C:%d:%d" % (cons, r)], nregs + 1, False)
             rec(prefix + ["T:%d" % r], nregs + 1, False)
             for k in "HLEF":
                 rec(prefix + ["%s:%d" % (k, r)], nregs, False)
@@ -97,11 +104,16 @@ def enum_scripts(maxlen):
 def rand_script(rng, maxlen, guarded=True):
     n = rng.randint(1, maxlen)
     regs, ops = [], []
+    # density of the value 0 (the zero value of int/"0"/the NIL interface value at the re-typed runs), per script
+    zp = rng.choice([0.05, 0.3, 0.3, 0.6])
+
+    def val():
+        return 0 if rng.random() < zp else rng.randrange(0, 1000)
     for _ in range(n):
         kinds = ["N"] if not regs else rng.choice([["N"], ["C"] * 3 + ["T"] * 3 + ["H", "L", "E", "F", "F"]])
         k = rng.choice(kinds)
         if k == "N":
-            xs = [rng.randrange(0, 1000) for _ in range(rng.choice([0, 0, 1, 1, 2, 3, 5, 8, 9, 13, 17, 33]))]
+            xs = [val() for _ in range(rng.choice([0, 0, 1, 1, 2, 3, 5, 8, 9, 13, 17, 33]))]
             regs.append(xs)
             ops.append("N:" + ",".join(map(str, xs)))
             continue
@@ -118,7 +130,7 @@ def rand_script(rng, maxlen, guarded=True):
                 ops.append("%s:%d" % (k, r))
                 break
         if k == "C":
-            x = rng.randrange(0, 1000)
+            x = val()
             regs.append([x] + regs[r])
             ops.append("C:%d:%d" % (x, r))
         elif k == "T":
@@ -138,12 +150,58 @@ def malformed(rng, n):
     return out
 
 
+TYFIELD = re.compile(r"^ty\[([a-z,]+)\]=(.*)$")
+TYDESC = {"string": "string (elements written with strconv)",
+          "iface": "`elem` (a non-empty interface type: 0 is the nil interface value, every other element a boxed int)",
+          "any": "`any` (0 is the nil interface value, every other element a boxed int64)"}
+
+
+def zero_places(want):
+    """Where the value 0 sits in the sequences a script constructs (expected observations)."""
+    out = set()
+    for o in want.split():
+        if o.startswith("[") and not o.startswith("[]"):
+            xs = o[1:o.index("]")].split(",")
+            if xs[0] == "0":
+                out.add("head")
+            if xs[-1] == "0":
+                out.add("end")
+            if "0" in xs[1:-1]:
+                out.add("middle")
+    return out
+
+
 OPNAME = {"N": "New", "C": "Cons", "T": "Tail", "H": "Head", "L": "Length", "E": "IsEmpty", "F": "Fold"}
+
+
+def ty_violation(c, ops, want, order, field):
+    """The int run of both implementations is the ADT's; a re-typed run of the same script is not."""
+    ents = [e.split(":", 3) for e in field.split(";")]
+    t, name, k, rest = ents[0]
+    other = "slice" if name == "list" else "list"
+    both = any(e[0] == t and e[1] == other for e in ents)
+    where = "(on %s.Trait too)" % other if both else "and from the %s implementation at the same element type" % other
+    ran = "types run in the order %s" % ",".join(order)
+    wo = want.split()
+    if k == "persist":
+        return vlib.Violation("impl", "the same script over element type %s: %s.Trait: an operation changed a sequence it was given, which it does not at element type int %s; %s: %s"
+                              % (TYDESC.get(t, t), name, where, ran, rest), case=c, expected="persist=ok", got="%s: %s" % (t, rest),
+                              key={"impl": name, "op": "persist", "ty": t})
+    k = int(k)
+    g = rest.split(":")[0]
+    opk = ops[k] if k < len(ops) else "?"
+    return vlib.Violation("impl", "the same script over element type %s: %s.Trait: observation #%d (%s, %s) differs from the sequence ADT %s, while at element type int it is as expected; %s"
+                          % (TYDESC.get(t, t), name, k, opk, OPNAME.get(opk[0], "?"), where, ran), case=c,
+                          expected=wo[k] if k < len(wo) else "<none>", got="%s/%s: %s   (all differing runs: %s)" % (t, name, g, field),
+                          key={"impl": name, "op": opk[0], "ty": t})
 
 
 def run(ctx):
     ctx.cov["rule"] = ("case = one register script (New/Cons/Tail define registers; Head/Length/IsEmpty/Fold observe) run on list.Trait and slice.Trait; "
-                       "non-trivial = at least 3 operations, at least one Cons or Tail, and a constructed sequence with >= 2 elements; distinct by script text")
+                       "non-trivial = at least 3 operations, at least one Cons or Tail, and a constructed sequence with >= 2 elements; distinct by script text. "
+                       "Every script is also run (same process, int first or int last by a hash of the script) on both implementations at element types string, a non-empty interface type "
+                       "and any (codec inj/prj; 0 is the nil interface value; Fold through the transported monoid) and must give the same projected observations as at int "
+                       "(direct oracle only: the Lean model is compared with the int run); `retyped_runs` counts those runs, `zero_at` where the value 0 sits in the constructed sequences")
     ctx.assumptions += [
         "list cells are modelled as immutable data (list.go only creates cells by composite literals, never assigns to one); the slice heap model lets `append` write in place",
         "Go's append growth policy is an arbitrary function `slack` in the theorems; capacity is not observed by the harness",
@@ -176,6 +234,9 @@ def run(ctx):
 
     scale = 10 if ctx.broken else 1  # failing-input search on an enlarged budget
     cases = enum_scripts(5 if ctx.thorough() else 3)
+    seen = set(cases)
+    # the same enumeration over the zero alphabet (New(0), New(5,0,3), Cons(0, _)): zero values / nil interface elements
+    cases += [c for c in enum_scripts(4 if ctx.thorough() else 3, NEWS0, 0) if c not in seen]
     n_enum = len(cases)
     n_rand = (20000 if ctx.thorough() else 400) * scale
     cases += [rand_script(ctx.rng, 60) for _ in range(n_rand)]
@@ -192,8 +253,11 @@ def run(ctx):
             ctx.violations.append(vlib.Violation("impl", "the real implementation crashed outside a recoverable panic on this script",
                                                  case=cases[len(impl)] if len(impl) < len(cases) else None, expected=py_run(cases[min(len(impl), len(cases) - 1)]), got=err[-300:], key={"impl": "crash"}))
         return
+    # the last field of a harness line (re-typed runs) is judged by the direct oracle below; the model is
+    # compared with the int part
+    impl_int = [" | ".join(l.split(" | ")[:3]) if l.count(" | ") == 3 else l for l in impl]
     model = ctx.oracle("C19", cases)
-    ctx.diff(cases, impl, model, "Lean interpreters (Model/ISeq) vs real list/slice traits")
+    ctx.diff(cases, impl_int, model, "Lean interpreters (Model/ISeq) vs real list/slice traits")
 
     for c, got in zip(cases, impl):
         ops = c.split()
@@ -204,10 +268,19 @@ def run(ctx):
         for o in ops:
             ctx.hist("op", OPNAME[o[0]])
         ctx.hist("ends_in_panic", want.endswith("panic"))
+        for z in zero_places(want) or {"none"}:
+            ctx.hist("zero_at", z)
         parts = got.split(" | ")
-        if len(parts) != 3:
+        tyf = TYFIELD.match(parts[3]) if len(parts) == 4 else None
+        if tyf is None:
             ctx.violations.append(vlib.Violation("impl", "unreadable harness line", case=c, expected=want, got=got, key={"impl": "?"}))
             continue
+        order = tyf.group(1).split(",")
+        ctx.hist("type_order", "int first" if order[0] == "int" else "int last")
+        for t in order:
+            if t != "int":
+                ctx.hist("retyped_runs", t + "/list")
+                ctx.hist("retyped_runs", t + "/slice")
         for name, g in (("list", parts[0]), ("slice", parts[1])):
             if g != want:
                 go_, wo = g.split(), want.split()
@@ -223,5 +296,7 @@ def run(ctx):
             elif parts[2] != "persist=ok":
                 ctx.violations.append(vlib.Violation("impl", "an operation changed a sequence it was given (older register or the caller's slice passed to New re-read differently): " + parts[2],
                                                      case=c, expected="persist=ok", got=parts[2], key={"impl": parts[2].split(":")[1] if ":" in parts[2] else "?", "op": "persist"}))
+            elif tyf.group(2) != "ok":
+                ctx.violations.append(ty_violation(c, ops, want, order, tyf.group(2)))
             elif len(ctx.cov["samples"]) < 5 and 6 <= len(ops) <= 14 and nontrivial:
                 ctx.sample({"case": c, "impl": got, "expected": want})
